@@ -1,6 +1,7 @@
 package checks
 
 import (
+	"github.com/deepteams/webp/internal/dsp"
 	"encoding/hex"
 	"github.com/deepteams/webp/internal/lossless"
 	"github.com/deepteams/webp/internal/zzverif/arb"
@@ -153,5 +154,96 @@ func init() {
 		}
 		fmt.Println(rp.Desc)
 		fmt.Println("Y digest", fw.Digest(out), "first row", out[:w])
+	}})
+}
+
+func init() {
+	fw.Register(&fw.Check{ID: "DBG5", Level: "other", Run: func(e *fw.Env, r *fw.Result) {
+		pin()
+		n := 0
+		for _, f := range vp8Corpus(e.Seed) {
+			pf, err := riffwalk.Parse(f.Data)
+			if err != nil {
+				continue
+			}
+			if v := c04JudgeFrame(pf.Frames[0].Bitstream); v != "" {
+				n++
+				if n < 8 {
+					fmt.Println(f.Name, "=>", v)
+				}
+			}
+		}
+		fmt.Println("violations vs reference:", n, "arbiter:", arb.Available())
+	}})
+}
+
+func refTransformOne(in []int16, dst []byte, stride int) {
+	mul1 := func(a int) int { return ((a * 20091) >> 16) + a }
+	mul2 := func(a int) int { return (a * 35468) >> 16 }
+	var tmp [16]int
+	for i := 0; i < 4; i++ {
+		a := int(in[i]) + int(in[8+i])
+		b := int(in[i]) - int(in[8+i])
+		c := mul2(int(in[4+i])) - mul1(int(in[12+i]))
+		d := mul1(int(in[4+i])) + mul2(int(in[12+i]))
+		tmp[4*i+0] = a + d
+		tmp[4*i+1] = b + c
+		tmp[4*i+2] = b - c
+		tmp[4*i+3] = a - d
+	}
+	clip := func(v int) byte {
+		if v < 0 {
+			return 0
+		}
+		if v > 255 {
+			return 255
+		}
+		return byte(v)
+	}
+	for i := 0; i < 4; i++ {
+		dc := tmp[i] + 4
+		a := dc + tmp[8+i]
+		b := dc - tmp[8+i]
+		c := mul2(tmp[4+i]) - mul1(tmp[12+i])
+		d := mul1(tmp[4+i]) + mul2(tmp[12+i])
+		dst[i*stride+0] = clip(int(dst[i*stride+0]) + (a+d)>>3)
+		dst[i*stride+1] = clip(int(dst[i*stride+1]) + (b+c)>>3)
+		dst[i*stride+2] = clip(int(dst[i*stride+2]) + (b-c)>>3)
+		dst[i*stride+3] = clip(int(dst[i*stride+3]) + (a-d)>>3)
+	}
+}
+
+func init() {
+	fw.Register(&fw.Check{ID: "DBG6", Level: "other", Run: func(e *fw.Env, r *fw.Result) {
+		vals := []int16{0, 1, -1, 2047, -2048, 11304, -11304, 20448, -20448, 32767, -32768}
+		bad := 0
+		for _, dc := range vals {
+			for pos := 1; pos < 16; pos++ {
+				for _, ac := range vals {
+					for _, pred := range []byte{0, 128, 255} {
+						var in [32]int16
+						in[0], in[pos] = dc, ac
+						want := make([]byte, 4*dsp.BPS+8)
+						got := make([]byte, 4*dsp.BPS+8)
+						for i := range want {
+							want[i], got[i] = pred, pred
+						}
+						refTransformOne(in[:16], want, dsp.BPS)
+						dsp.Transform(in[:], got, false)
+						for y := 0; y < 4; y++ {
+							for x := 0; x < 4; x++ {
+								if want[y*dsp.BPS+x] != got[y*dsp.BPS+x] {
+									bad++
+									if bad < 6 {
+										fmt.Printf("Transform dc=%d ac[%d]=%d pred=%d: (%d,%d) got %d want %d\n", dc, pos, ac, pred, x, y, got[y*dsp.BPS+x], want[y*dsp.BPS+x])
+									}
+								}
+							}
+						}
+					}
+				}
+			}
+		}
+		fmt.Println("Transform mismatching samples:", bad)
 	}})
 }
